@@ -18,7 +18,7 @@
    What remains a hypothesis (never an axiom): the set U of positions the calls may touch -
    touch_set U: U (S d) p -> U d p; legal successors of live U (S d) positions are in U d; NoCollision on U 0 in the form DfpnFacts.S_hash
    uses (equal Position.Hash => same forced-result classification; implied by "equal hash => equal position value", SearchTable5.touch_levels) -
-   and per call ask_ok: C01's invariant base_ok, at most 64 pieces in the game, ply + 40 <= C18's max_terminal_ply, game not over,
+   and per call ask_ok: C01's invariant base_ok, at most 64 pieces in the game, ply + configured depth <= C18's max_terminal_ply, game not over,
    configured depth < 40 (the recursion fuel of the model; ai.maxDepth is 15), p in U d for d up to the configured depth. *)
 From Coq Require Import NArith ZArith List Bool Lia.
 Require Import Board Move GameOver Eval EvalSpec Search NegamaxSpec SearchGen SearchExact SearchInst SearchC SearchLegal2 SearchNeg2 SearchNeg5.
